@@ -2,16 +2,44 @@
    caller's sequences": diffing a sub-range equals diffing the extracted
    slices, shifted by the range starts.
 
-   Part 1 (section ShiftHom).  A homomorphism g from the states of a "local"
-   world wdL into those of an "absolute" world wdA that turns a local call c
-   into the absolute call [shift_call os0 ns0 c], together with comparison
-   functions related by [cmpA (i + os0) (j + ns0) = cmpL i j], commutes with
-   everything Myers, LCS and Patience do: running on the box shifted by
-   (os0, ns0) in the absolute world = running on the box in the local world. *)
+   Main theorems (every algorithm, every clock, both build modes, with and
+   without the repair switch; equal Ok / Panic / OutOfFuel outcomes, equal
+   calls / ops, equal counters):
+     raw_shift       raw_trace on os..oe / ns..ne  =  raw_trace with the shifted
+                     oracles on 0..oe-os / 0..ne-ns, calls mapped by shift_call
+     capture_shift   the same for capture_diff, ops mapped by shift_op
+     raw_shift_ext / capture_shift_ext   any box (a,b) x (c,d) shifted by
+                     (os,ns), any two oracle triples related pointwise by the
+                     shift ([OrcShift]; no functional extensionality)
+     raw_shift_slices / capture_shift_slices   instance for item lists: the
+                     caller's lists versus their tails skipn os / skipn ns.
+
+   Part 1 (sections ScanShift, ShiftHom, UniqueShift, PatienceShift,
+   PatienceDiffShift, DiffShift).  A homomorphism g from the states of a
+   "local" world wdL into those of an "absolute" world wdA that turns a local
+   call c into the absolute call [shift_call os0 ns0 c], together with
+   comparison functions related by [cmpA (i + os0) (j + ns0) = cmpL i j],
+   commutes with everything Myers, LCS and Patience do: running on the box
+   shifted by (os0, ns0) in the absolute world = running on the box in the
+   local world.  Nothing in the model depends on absolute positions: the V
+   arrays hold box-relative x, fuels and max_d are computed from lengths, the
+   LCS table is indexed relatively; [unique] returns absolute indices (the
+   local run returns them shifted), and the checked subtractions [sub_chk oe s]
+   in conquer / lcs_diff are safe on both sides because s is bounded by the
+   scanned range.  Instance: the recording hook, g = map shift_call over the
+   log ([raw_shift]).
+
+   Part 2 (capture_diff).  See the comment at [tot_cmp]: Compact's cleanup
+   does NOT commute with shifting on arbitrary op lists (checked subtractions
+   on absolute indices); it does on the op lists the algorithms produce.
+   Sections Mono / PatienceMono (a successful run is also a run under the
+   totalised oracle), KM / CompactKM (three-way comparison of cleanup runs),
+   ReplaceShift, then [capture_shift]. *)
 From Similar Require Import Model.Base Model.Utils Model.Myers Model.Lcs Model.Hooks
-  Model.Patience Model.Compact Model.Capture
+  Model.Patience Model.Compact Model.Capture Model.TextDiff
   Spec.Script Spec.EditGraph Spec.SnakeSpec
-  Proofs.Utils Proofs.Lcs Proofs.WorldInv Proofs.Replace Proofs.Pipeline Proofs.PatienceCapture.
+  Proofs.Utils Proofs.Lcs Proofs.MyersSnake Proofs.WorldInv Proofs.MyersConquer Proofs.Replace
+  Proofs.Patience Proofs.Pipeline Proofs.PatienceCapture.
 
 Local Open Scope nat_scope.
 
@@ -71,18 +99,6 @@ Proof. unfold scan_cmps. now rewrite !empty_range_shift, !sub_shift. Qed.
 
 Lemma rmap_id {A} (r : res A) : rmap (fun x => x) r = r.
 Proof. destruct r; reflexivity. Qed.
-
-Lemma rmap_rmap {A B C} (f : A -> B) (h : B -> C) (r : res A) :
-  rmap h (rmap f r) = rmap (fun x => h (f x)) r.
-Proof. destruct r; reflexivity. Qed.
-
-Lemma rmap_ext {A B} (f h : A -> B) (r : res A) :
-  (forall x, f x = h x) -> rmap f r = rmap h r.
-Proof. intros H. destruct r; cbn [rmap]; [now rewrite H|reflexivity|reflexivity]. Qed.
-
-Lemma bind_rmap {A B C} (f : A -> B) (m : res A) (k : B -> res C) :
-  bind (rmap f m) k = bind m (fun a => k (f a)).
-Proof. destruct m; reflexivity. Qed.
 
 (* ====================================================================== *)
 (* Scans                                                                   *)
@@ -681,6 +697,21 @@ Section PatienceDiffShift.
 End PatienceDiffShift.
 
 (* ====================================================================== *)
+(* Oracles related by a shift                                              *)
+(* ====================================================================== *)
+
+(* [orcL] looks at the same items as [orcA], re-based by (os, ns): this is
+   what "the extracted slices" means at the level of comparison oracles.
+   Stated pointwise so that no functional extensionality is needed. *)
+Definition OrcShift (orcA orcL : oracles) (os ns : nat) : Prop :=
+  (forall i j, o_on orcA (i + os) (j + ns) = o_on orcL i j) /\
+  (forall i j, o_oo orcA (i + os) (j + os) = o_oo orcL i j) /\
+  (forall i j, o_nn orcA (i + ns) (j + ns) = o_nn orcL i j).
+
+Lemma OrcShift_shift_orc orc os ns : OrcShift orc (shift_orc orc os ns) os ns.
+Proof. repeat split. Qed.
+
+(* ====================================================================== *)
 (* All three algorithms                                                    *)
 (* ====================================================================== *)
 Section DiffShift.
@@ -693,16 +724,21 @@ Section DiffShift.
   Hypothesis g_probe : forall w, probe wdA (g w) = (fst (probe wdL w), g (snd (probe wdL w))).
   Hypothesis g_emit : forall c w, emit wdA (shift_call os0 ns0 c) (g w) = rmap g (emit wdL c w).
 
+  Theorem diff_deadline_shift_ext alg dbg orcA orcL os oe ns ne w :
+    OrcShift orcA orcL os0 ns0 ->
+    diff_deadline alg wdA dbg orcA (os + os0) (oe + os0) (ns + ns0) (ne + ns0) (g w) =
+    rmap g (diff_deadline alg wdL dbg orcL os oe ns ne w).
+  Proof.
+    intros (Hon & Hoo & Hnn). destruct alg; cbn [diff_deadline].
+    - apply (myers_diff_shift wdA wdL g os0 ns0 _ _ g_tick g_probe g_emit Hon).
+    - apply (patience_diff_shift wdA wdL g os0 ns0 _ _ _ _ _ _ g_tick g_probe g_emit Hon Hoo Hnn).
+    - apply (lcs_diff_shift wdA wdL g os0 ns0 _ _ g_tick g_probe g_emit Hon).
+  Qed.
+
   Theorem diff_deadline_shift alg dbg orc os oe ns ne w :
     diff_deadline alg wdA dbg orc (os + os0) (oe + os0) (ns + ns0) (ne + ns0) (g w) =
     rmap g (diff_deadline alg wdL dbg (shift_orc orc os0 ns0) os oe ns ne w).
-  Proof.
-    destruct alg; cbn [diff_deadline shift_orc o_on o_oo o_nn].
-    - apply (myers_diff_shift wdA wdL g os0 ns0 _ _ g_tick g_probe g_emit). reflexivity.
-    - apply (patience_diff_shift wdA wdL g os0 ns0 _ _ _ _ _ _ g_tick g_probe g_emit);
-        reflexivity.
-    - apply (lcs_diff_shift wdA wdL g os0 ns0 _ _ g_tick g_probe g_emit). reflexivity.
-  Qed.
+  Proof. apply diff_deadline_shift_ext, OrcShift_shift_orc. Qed.
 End DiffShift.
 
 (* ====================================================================== *)
@@ -732,20 +768,29 @@ Lemma plain_calls_shift os0 ns0 w :
   plain_calls (shift_plain os0 ns0 w) = map (shift_call os0 ns0) (plain_calls w).
 Proof. unfold plain_calls, shift_plain. cbn [p_log]. now rewrite map_rev. Qed.
 
-(* the general form: any box (a, b) x (c, d), shifted by (os, ns) *)
+(* the general form: any box (a, b) x (c, d), shifted by (os, ns), any pair of
+   oracles related by the shift *)
+Theorem raw_shift_ext alg dl dbg orcA orcL os ns a b c d :
+  OrcShift orcA orcL os ns ->
+  raw_trace alg dl dbg orcA (a + os) (b + os) (c + ns) (d + ns) =
+  (do '(calls, k) <- raw_trace alg dl dbg orcL a b c d;
+   Ok (map (shift_call os ns) calls, k)).
+Proof.
+  intros Horc. unfold raw_trace.
+  change plain0 with (shift_plain os ns plain0) at 1.
+  rewrite (diff_deadline_shift_ext (plain_world dl) (plain_world dl) (shift_plain os ns) os ns
+             (shift_plain_tick dl os ns) (shift_plain_probe dl os ns) (shift_plain_emit dl os ns)
+             alg dbg orcA orcL a b c d plain0 Horc).
+  destruct (diff_deadline alg (plain_world dl) dbg orcL a b c d plain0)
+    as [w| |]; cbn [rmap bind]; try reflexivity.
+  now rewrite plain_calls_shift.
+Qed.
+
 Theorem raw_shift_gen alg dl dbg orc os ns a b c d :
   raw_trace alg dl dbg orc (a + os) (b + os) (c + ns) (d + ns) =
   (do '(calls, k) <- raw_trace alg dl dbg (shift_orc orc os ns) a b c d;
    Ok (map (shift_call os ns) calls, k)).
-Proof.
-  unfold raw_trace.
-  change plain0 with (shift_plain os ns plain0) at 1.
-  rewrite (diff_deadline_shift (plain_world dl) (plain_world dl) (shift_plain os ns) os ns
-             (shift_plain_tick dl os ns) (shift_plain_probe dl os ns) (shift_plain_emit dl os ns)).
-  destruct (diff_deadline alg (plain_world dl) dbg (shift_orc orc os ns) a b c d plain0)
-    as [w| |]; cbn [rmap bind]; try reflexivity.
-  now rewrite plain_calls_shift.
-Qed.
+Proof. apply raw_shift_ext, OrcShift_shift_orc. Qed.
 
 (* C01: diffing the sub-range os..oe / ns..ne of the caller's sequences =
    diffing the extracted slices (positions 0..oe-os / 0..ne-ns, looked up
@@ -1009,8 +1054,11 @@ Section PatienceMono.
   Lemma PW_emit_mono c sw sw' : emit PWL c sw = Ok sw' -> emit PWT c sw = Ok sw'.
   Proof.
     unfold PWL, PWT. destruct c as [o n l|o l n|o n l|o ol n nl|];
-      cbn [emit patience_world patience_emit]; auto.
+      cbn [emit patience_world patience_emit].
     - apply anchor_loop_mono.
+    - exact (fun H => H).
+    - exact (fun H => H).
+    - exact (fun H => H).
     - destruct sw as [s w]. intros H.
       destruct (myers_diff wd cmpL (old_current s) oe (new_current s) ne w) as [w1| |] eqn:E;
         cbn [bind] in H; try discriminate.
@@ -1059,9 +1107,17 @@ Proof.
   cbv zeta in *.
   match type of H with context [myers_diff ?rw ?c ?a ?b ?cc ?d ?x] =>
     destruct (myers_diff rw c a b cc d x) as [r| |] eqn:E end; cbn [bind] in H; try discriminate.
-  rewrite (myers_diff_mono _ (replace_world (patience_world wd cmpT uo un oe ne) dbg)
-             _ (unique_cmp cmpT uo un)
-             (fun _ _ => eq_refl) (fun _ => eq_refl)
+  assert (Ht : forall k x, tick (replace_world (patience_world wd cmpT uo un oe ne) dbg) k x =
+                           tick (replace_world (patience_world wd cmpL uo un oe ne) dbg) k x).
+  { intros k x. cbn [tick replace_world]. unfold lift_tick. cbn [tick patience_world].
+    unfold lift_tick. reflexivity. }
+  assert (Hp : forall x, probe (replace_world (patience_world wd cmpT uo un oe ne) dbg) x =
+                         probe (replace_world (patience_world wd cmpL uo un oe ne) dbg) x).
+  { intros x. cbn [probe replace_world]. unfold lift_probe. cbn [probe patience_world].
+    unfold lift_probe. reflexivity. }
+  rewrite (myers_diff_mono (replace_world (patience_world wd cmpL uo un oe ne) dbg)
+             (replace_world (patience_world wd cmpT uo un oe ne) dbg)
+             (unique_cmp cmpL uo un) (unique_cmp cmpT uo un) Ht Hp
              (RW_emit_mono wd cmpL cmpT Hm uo un oe ne dbg)
              (unique_cmp_mono cmpL cmpT uo un Hm) _ _ _ _ _ _ E).
   exact H.
@@ -1079,3 +1135,779 @@ Proof.
   - apply patience_diff_mono. exact Hm.
   - now destruct Ha.
 Qed.
+
+(* ====================================================================== *)
+(* Three-way comparison of runs: absolute / local / local-totalised        *)
+(* ====================================================================== *)
+
+(* [KM f a l t]: whenever the totalised local run [t] succeeds, the
+   absolute run [a] is the image of the local run [l] (whatever its outcome)
+   and the local run, if it succeeds, agrees with the totalised one *)
+Definition KM {X Y} (f : X -> Y) (a : res Y) (l t : res X) : Prop :=
+  forall rT, t = Ok rT -> a = rmap f l /\ (forall r, l = Ok r -> r = rT).
+
+Lemma KM_bind {X Y X2 Y2} (f : X -> Y) (h : X2 -> Y2) mA mL mT kA kL kT :
+  KM f mA mL mT -> (forall x, KM h (kA (f x)) (kL x) (kT x)) ->
+  KM h (bind mA kA) (bind mL kL) (bind mT kT).
+Proof.
+  intros Hm Hk rT HT. apply bind_Ok_inv in HT. destruct HT as (x0 & HmT & HkT).
+  destruct (Hm x0 HmT) as [HA HL]. rewrite HA.
+  destruct mL as [x| |]; cbn [rmap bind]; [|split; [reflexivity|discriminate]..].
+  rewrite (HL x eq_refl). exact (Hk x0 rT HkT).
+Qed.
+
+Lemma KM_same {X Y} (f : X -> Y) a l :
+  (forall r, l = Ok r -> a = Ok (f r)) -> KM f a l l.
+Proof.
+  intros H rT HT. split.
+  - rewrite (H rT HT), HT. reflexivity.
+  - intros r Hr. rewrite HT in Hr. now injection Hr as <-.
+Qed.
+
+Lemma KM_ok {X Y} (f : X -> Y) x : KM f (Ok (f x)) (Ok x) (Ok x).
+Proof. apply KM_same. intros r H. now injection H as <-. Qed.
+
+(* ====================================================================== *)
+(* Compact                                                                 *)
+(* ====================================================================== *)
+Section OpShift.
+  Variables os0 ns0 : nat.
+  Let sh := shift_op os0 ns0.
+
+  Lemma op_tag_shift x : op_tag (sh x) = op_tag x.
+  Proof. destruct x; reflexivity. Qed.
+  Lemma op_old_start_shift x : op_old_start (sh x) = op_old_start x + os0.
+  Proof. destruct x; reflexivity. Qed.
+  Lemma op_new_start_shift x : op_new_start (sh x) = op_new_start x + ns0.
+  Proof. destruct x; reflexivity. Qed.
+  Lemma op_old_len_shift x : op_old_len (sh x) = op_old_len x.
+  Proof. destruct x; reflexivity. Qed.
+  Lemma op_new_len_shift x : op_new_len (sh x) = op_new_len x.
+  Proof. destruct x; reflexivity. Qed.
+  Lemma op_old_end_shift x : op_old_end (sh x) = op_old_end x + os0.
+  Proof. unfold op_old_end. rewrite op_old_start_shift, op_old_len_shift. lia. Qed.
+  Lemma op_new_end_shift x : op_new_end (sh x) = op_new_end x + ns0.
+  Proof. unfold op_new_end. rewrite op_new_start_shift, op_new_len_shift. lia. Qed.
+  Lemma op_is_empty_shift x : op_is_empty (sh x) = op_is_empty x.
+  Proof. unfold op_is_empty. now rewrite op_old_len_shift, op_new_len_shift. Qed.
+  Lemma is_equal_op_shift x : is_equal_op (sh x) = is_equal_op x.
+  Proof. destruct x; reflexivity. Qed.
+
+  Lemma sub_chk_shift_ok a s r k : sub_chk a s = Ok r -> sub_chk (a + k) s = Ok (r + k).
+  Proof.
+    intros H. apply sub_chk_Ok in H. destruct H as [Hle ->].
+    rewrite WorldInv.sub_chk_le by lia. f_equal. lia.
+  Qed.
+
+  Ltac two_sub H :=
+    let o' := fresh "o'" in let n' := fresh "n'" in
+    let E1 := fresh "E" in let E2 := fresh "E" in
+    match type of H with
+    | context [sub_chk ?o ?a] =>
+        destruct (sub_chk o a) as [o'| |] eqn:E1; cbn [bind] in H; try discriminate H
+    end;
+    match type of H with
+    | context [sub_chk ?n ?a] =>
+        destruct (sub_chk n a) as [n'| |] eqn:E2; cbn [bind] in H; try discriminate H
+    end;
+    injection H as <-;
+    rewrite (sub_chk_shift_ok _ _ _ os0 E1); cbn [bind];
+    rewrite (sub_chk_shift_ok _ _ _ ns0 E2); cbn [bind]; reflexivity.
+
+  Lemma shift_left_ok x a x' : shift_left x a = Ok x' -> shift_left (sh x) a = Ok (sh x').
+  Proof. destruct x; cbn [shift_left sh shift_op]; intros H; two_sub H. Qed.
+
+  Lemma grow_left_ok x a x' : grow_left x a = Ok x' -> grow_left (sh x) a = Ok (sh x').
+  Proof. destruct x; cbn [grow_left sh shift_op]; intros H; two_sub H. Qed.
+
+  Lemma shrink_left_ok x a x' : shrink_left x a = Ok x' -> shrink_left (sh x) a = Ok (sh x').
+  Proof.
+    destruct x; cbn [shrink_left sh shift_op]; intros H.
+    1-3: match type of H with context [sub_chk ?l ?a] =>
+           destruct (sub_chk l a) as [l'| |]; cbn [bind] in *; try discriminate H end;
+         injection H as <-; reflexivity.
+    destruct (sub_chk ol a) as [l1| |]; cbn [bind] in *; try discriminate H.
+    destruct (sub_chk nl a) as [l2| |]; cbn [bind] in *; try discriminate H.
+    injection H as <-. reflexivity.
+  Qed.
+
+  Lemma shrink_right_ok x a x' : shrink_right x a = Ok x' -> shrink_right (sh x) a = Ok (sh x').
+  Proof.
+    destruct x; cbn [shrink_right sh shift_op]; intros H.
+    1-3: match type of H with context [sub_chk ?l ?a] =>
+           destruct (sub_chk l a) as [l'| |]; cbn [bind] in *; try discriminate H end;
+         injection H as <-; cbn [shift_op]; rewrite (add_swap _ os0 a), (add_swap _ ns0 a);
+         reflexivity.
+    destruct (sub_chk ol a) as [l1| |]; cbn [bind] in *; try discriminate H.
+    destruct (sub_chk nl a) as [l2| |]; cbn [bind] in *; try discriminate H.
+    injection H as <-. cbn [shift_op]. rewrite (add_swap _ os0 a), (add_swap _ ns0 a).
+    reflexivity.
+  Qed.
+
+  Lemma shift_right_shift x a : shift_right (sh x) a = sh (shift_right x a).
+  Proof.
+    destruct x; cbn [shift_right sh shift_op]; rewrite (add_swap _ os0 a), (add_swap _ ns0 a);
+      reflexivity.
+  Qed.
+
+  Lemma grow_right_shift x a : grow_right (sh x) a = sh (grow_right x a).
+  Proof. destruct x; reflexivity. Qed.
+
+  Lemma repair_pair_shift a b :
+    repair_pair (sh a) (sh b) = (sh (fst (repair_pair a b)), sh (snd (repair_pair a b))).
+  Proof.
+    destruct a, b; cbn [repair_pair sh shift_op fst snd]; try reflexivity.
+    - now rewrite (add_swap _ os0 ol).
+    - now rewrite (add_swap _ ns0 nl).
+  Qed.
+
+  Definition shift_z (z : zipper) : zipper :=
+    let '(bef, this, aft) := z in (map sh bef, sh this, map sh aft).
+
+  Definition shift_sr (r : step_result) : step_result :=
+    match r with Continue z => Continue (shift_z z) | Break z => Break (shift_z z) end.
+
+  Lemma ops_weight_shift l : ops_weight (map sh l) = ops_weight l.
+  Proof.
+    induction l as [|x l IH]; [reflexivity|]. unfold ops_weight in *. cbn [map fold_right].
+    now rewrite op_old_len_shift, op_new_len_shift, IH.
+  Qed.
+
+  Lemma inner_fuel_shift z : inner_fuel (shift_z z) = inner_fuel z.
+  Proof.
+    destruct z as [[bef this] aft]. unfold inner_fuel, zipper_weight, shift_z.
+    change [sh this] with (map sh [this]). now rewrite !ops_weight_shift.
+  Qed.
+
+  Lemma outer_fuel_shift l : outer_fuel (map sh l) = outer_fuel l.
+  Proof. unfold outer_fuel. now rewrite ops_weight_shift. Qed.
+End OpShift.
+
+Section CompactKM.
+  Variables os0 ns0 : nat.
+  Variables cmpA cmpL cmpT : cmpf.
+  Hypothesis Hcmp : forall i j, cmpA (i + os0) (j + ns0) = cmpL i j.
+  Hypothesis m_cmp : forall i j b, cmpL i j = Ok b -> cmpT i j = Ok b.
+  Variable repair : bool.
+  Local Notation sh := (shift_op os0 ns0).
+  Local Notation shz := (shift_z os0 ns0).
+  Local Notation shr := (shift_sr os0 ns0).
+
+  Lemma KM_csl a b c d :
+    KM (fun s : nat => s) (common_suffix_len cmpA (a + os0) (b + os0) (c + ns0) (d + ns0))
+       (common_suffix_len cmpL a b c d) (common_suffix_len cmpT a b c d).
+  Proof.
+    intros sT HT. rewrite (common_suffix_len_shift cmpA cmpL os0 ns0 Hcmp), rmap_id.
+    split; [reflexivity|]. intros s Hs.
+    rewrite (csl_mono cmpL cmpT m_cmp _ _ _ _ _ Hs) in HT. now injection HT as <-.
+  Qed.
+
+  Lemma KM_cpl a b c d :
+    KM (fun s : nat => s) (common_prefix_len cmpA (a + os0) (b + os0) (c + ns0) (d + ns0))
+       (common_prefix_len cmpL a b c d) (common_prefix_len cmpT a b c d).
+  Proof.
+    intros sT HT. rewrite (common_prefix_len_shift cmpA cmpL os0 ns0 Hcmp), rmap_id.
+    split; [reflexivity|]. intros s Hs.
+    rewrite (cpl_mono cmpL cmpT m_cmp _ _ _ _ _ Hs) in HT. now injection HT as <-.
+  Qed.
+
+  (* the Equal op inserted after the slid Insert / Delete *)
+  Lemma new_eq_ok (prev this : op) s l (tl : list op) r :
+    (do eo <- sub_chk (op_old_end prev) s;
+     do en <- sub_chk (op_new_end this) s; Ok (Equal eo en l :: tl)) = Ok r ->
+    (do eo <- sub_chk (op_old_end prev + os0) s;
+     do en <- sub_chk (op_new_end this + ns0) s; Ok (Equal eo en l :: map sh tl)) = Ok (map sh r).
+  Proof.
+    intros H.
+    destruct (sub_chk (op_old_end prev) s) as [eo| |] eqn:E1; cbn [bind] in H; try discriminate.
+    destruct (sub_chk (op_new_end this) s) as [en| |] eqn:E2; cbn [bind] in H; try discriminate.
+    injection H as <-.
+    rewrite (sub_chk_shift_ok _ _ _ os0 E1), (sub_chk_shift_ok _ _ _ ns0 E2). reflexivity.
+  Qed.
+
+  Lemma up_step_KM z :
+    KM shr (up_step cmpA repair (shz z)) (up_step cmpL repair z) (up_step cmpT repair z).
+  Proof.
+    destruct z as [[bef this] aft]. destruct bef as [|prev bef'].
+    { apply (KM_ok shr (Break ([], this, aft))). }
+    unfold shift_z. cbn [map]. unfold up_step.
+    rewrite !op_tag_shift, !op_old_start_shift, !op_old_end_shift, !op_new_start_shift,
+      !op_new_end_shift.
+    destruct (op_tag this) eqn:Et; destruct (op_tag prev) eqn:Ep;
+      try (apply KM_same; intros r H; discriminate H).
+    - (* Delete, Equal *)
+      apply (KM_bind (fun s : nat => s) shr); [apply KM_csl|]. intros s. apply KM_same. intros r H.
+      destruct (negb (s =? 0)).
+      + match type of H with bind ?m _ = _ => destruct m as [aft1| |] eqn:E1 end;
+          cbn [bind] in H; try discriminate.
+        assert (E1' : match map sh aft with
+                      | [] => do eo <- sub_chk (op_old_end prev + os0) s;
+                              do en <- sub_chk (op_new_end this + ns0) s;
+                              do el <- sub_chk (op_old_len (sh prev)) s; Ok [Equal eo en el]
+                      | nx :: aft' =>
+                          if is_equal_op nx then do nx' <- grow_left nx s; Ok (nx' :: aft')
+                          else do eo <- sub_chk (op_old_end prev + os0) s;
+                               do en <- sub_chk (op_new_end this + ns0) s;
+                               do el <- sub_chk (op_old_len (sh prev)) s;
+                               Ok (Equal eo en el :: map sh aft)
+                      end = Ok (map sh aft1)).
+        { rewrite op_old_len_shift. destruct aft as [|nx aft']; cbn [map].
+          - destruct (sub_chk (op_old_end prev) s) as [eo| |] eqn:F1; cbn [bind] in E1; try discriminate.
+            destruct (sub_chk (op_new_end this) s) as [en| |] eqn:F2; cbn [bind] in E1; try discriminate.
+            destruct (sub_chk (op_old_len prev) s) as [el| |] eqn:F3; cbn [bind] in E1; try discriminate.
+            injection E1 as <-.
+            rewrite (sub_chk_shift_ok _ _ _ os0 F1), (sub_chk_shift_ok _ _ _ ns0 F2). reflexivity.
+          - rewrite is_equal_op_shift. destruct (is_equal_op nx).
+            + destruct (grow_left nx s) as [nx'| |] eqn:F; cbn [bind] in E1; try discriminate.
+              injection E1 as <-. rewrite (grow_left_ok os0 ns0 _ _ _ F). reflexivity.
+            + destruct (sub_chk (op_old_end prev) s) as [eo| |] eqn:F1; cbn [bind] in E1; try discriminate.
+              destruct (sub_chk (op_new_end this) s) as [en| |] eqn:F2; cbn [bind] in E1; try discriminate.
+              destruct (sub_chk (op_old_len prev) s) as [el| |] eqn:F3; cbn [bind] in E1; try discriminate.
+              injection E1 as <-.
+              rewrite (sub_chk_shift_ok _ _ _ os0 F1), (sub_chk_shift_ok _ _ _ ns0 F2). reflexivity. }
+        rewrite E1'. cbn [bind].
+        destruct (shift_left this s) as [this1| |] eqn:E2; cbn [bind] in H; try discriminate.
+        rewrite (shift_left_ok os0 ns0 _ _ _ E2). cbn [bind].
+        destruct (shrink_left prev s) as [prev1| |] eqn:E3; cbn [bind] in H; try discriminate.
+        rewrite (shrink_left_ok os0 ns0 _ _ _ E3). cbn [bind].
+        rewrite op_is_empty_shift. destruct (op_is_empty prev1); injection H as <-; reflexivity.
+      + rewrite op_is_empty_shift.
+        destruct (op_is_empty prev); injection H as <-; reflexivity.
+    - (* Delete, Delete *)
+      apply KM_same. intros r H. injection H as <-.
+      rewrite op_old_len_shift, grow_right_shift. reflexivity.
+    - (* Delete, Insert *)
+      apply KM_same. intros r H. rewrite repair_pair_shift.
+      destruct repair; [destruct (repair_pair this prev) as [a b]|]; injection H as <-; reflexivity.
+    - (* Insert, Equal *)
+      apply (KM_bind (fun s : nat => s) shr); [apply KM_csl|]. intros s. apply KM_same. intros r H.
+      destruct (0 <? s).
+      + match type of H with bind ?m _ = _ => destruct m as [aft1| |] eqn:E1 end;
+          cbn [bind] in H; try discriminate.
+        assert (E1' : match map sh aft with
+                      | [] => do eo <- sub_chk (op_old_end prev + os0) s;
+                              do en <- sub_chk (op_new_end this + ns0) s; Ok [Equal eo en s]
+                      | nx :: aft' =>
+                          if is_equal_op nx then do nx' <- grow_left nx s; Ok (nx' :: aft')
+                          else do eo <- sub_chk (op_old_end prev + os0) s;
+                               do en <- sub_chk (op_new_end this + ns0) s;
+                               Ok (Equal eo en s :: map sh aft)
+                      end = Ok (map sh aft1)).
+        { destruct aft as [|nx aft']; cbn [map].
+          - apply (new_eq_ok prev this s s [] aft1). exact E1.
+          - rewrite is_equal_op_shift. destruct (is_equal_op nx).
+            + destruct (grow_left nx s) as [nx'| |] eqn:F; cbn [bind] in E1; try discriminate.
+              injection E1 as <-. rewrite (grow_left_ok os0 ns0 _ _ _ F). reflexivity.
+            + apply (new_eq_ok prev this s s (nx :: aft') aft1). exact E1. }
+        rewrite E1'. cbn [bind].
+        destruct (shift_left this s) as [this1| |] eqn:E2; cbn [bind] in H; try discriminate.
+        rewrite (shift_left_ok os0 ns0 _ _ _ E2). cbn [bind].
+        destruct (shrink_left prev s) as [prev1| |] eqn:E3; cbn [bind] in H; try discriminate.
+        rewrite (shrink_left_ok os0 ns0 _ _ _ E3). cbn [bind].
+        rewrite op_is_empty_shift. destruct (op_is_empty prev1); injection H as <-; reflexivity.
+      + rewrite op_is_empty_shift.
+        destruct (op_is_empty prev); injection H as <-; reflexivity.
+    - (* Insert, Delete *)
+      apply KM_same. intros r H. rewrite repair_pair_shift.
+      destruct repair; [destruct (repair_pair this prev) as [a b]|]; injection H as <-; reflexivity.
+    - (* Insert, Insert *)
+      apply KM_same. intros r H. injection H as <-.
+      rewrite op_new_len_shift, grow_right_shift. reflexivity.
+  Qed.
+  Lemma down_step_KM z :
+    KM shr (down_step cmpA repair (shz z)) (down_step cmpL repair z) (down_step cmpT repair z).
+  Proof.
+    destruct z as [[bef this] aft]. destruct aft as [|next aft'].
+    { apply (KM_ok shr (Break (bef, this, []))). }
+    unfold shift_z. cbn [map]. unfold down_step.
+    rewrite !op_tag_shift, !op_old_start_shift, !op_old_end_shift, !op_new_start_shift,
+      !op_new_end_shift.
+    assert (Hscan : forall r,
+      (do p <- common_prefix_len cmpL (op_old_start next) (op_old_end next) (op_new_start this) (op_new_end this);
+       if 0 <? p then
+         let bef1 := match bef with
+                     | [] => [Equal (op_old_start next) (op_new_start this) p]
+                     | pv :: bef' => if is_equal_op pv then grow_right pv p :: bef'
+                                     else Equal (op_old_start next) (op_new_start this) p :: bef
+                     end in
+         let this1 := shift_right this p in
+         do next1 <- shrink_right next p;
+         if op_is_empty next1 then Ok (Continue (bef1, this1, aft'))
+         else Ok (Continue (bef1, this1, next1 :: aft'))
+       else if op_is_empty next then Ok (Continue (bef, this, aft'))
+            else Ok (Break (bef, this, next :: aft'))) = r ->
+      KM shr
+        (do p <- common_prefix_len cmpA (op_old_start next + os0) (op_old_end next + os0)
+                   (op_new_start this + ns0) (op_new_end this + ns0);
+         if 0 <? p then
+           let bef1 := match map sh bef with
+                       | [] => [Equal (op_old_start next + os0) (op_new_start this + ns0) p]
+                       | pv :: bef' => if is_equal_op pv then grow_right pv p :: bef'
+                                       else Equal (op_old_start next + os0) (op_new_start this + ns0) p
+                                              :: map sh bef
+                       end in
+           let this1 := shift_right (sh this) p in
+           do next1 <- shrink_right (sh next) p;
+           if op_is_empty next1 then Ok (Continue (bef1, this1, map sh aft'))
+           else Ok (Continue (bef1, this1, next1 :: map sh aft'))
+         else if op_is_empty (sh next) then Ok (Continue (map sh bef, sh this, map sh aft'))
+              else Ok (Break (map sh bef, sh this, sh next :: map sh aft')))
+        r
+        (do p <- common_prefix_len cmpT (op_old_start next) (op_old_end next) (op_new_start this) (op_new_end this);
+         if 0 <? p then
+           let bef1 := match bef with
+                       | [] => [Equal (op_old_start next) (op_new_start this) p]
+                       | pv :: bef' => if is_equal_op pv then grow_right pv p :: bef'
+                                       else Equal (op_old_start next) (op_new_start this) p :: bef
+                       end in
+           let this1 := shift_right this p in
+           do next1 <- shrink_right next p;
+           if op_is_empty next1 then Ok (Continue (bef1, this1, aft'))
+           else Ok (Continue (bef1, this1, next1 :: aft'))
+         else if op_is_empty next then Ok (Continue (bef, this, aft'))
+              else Ok (Break (bef, this, next :: aft')))).
+    { intros r0 <-.
+      apply (KM_bind (fun s : nat => s) shr); [apply KM_cpl|]. intros p. apply KM_same. intros r H.
+      cbv zeta in *. destruct (0 <? p).
+      - destruct (shrink_right next p) as [next1| |] eqn:E3; cbn [bind] in H; try discriminate.
+        rewrite (shrink_right_ok os0 ns0 _ _ _ E3). cbn [bind].
+        rewrite op_is_empty_shift, shift_right_shift.
+        assert (Hb : match map sh bef with
+                     | [] => [Equal (op_old_start next + os0) (op_new_start this + ns0) p]
+                     | pv :: bef' => if is_equal_op pv then grow_right pv p :: bef'
+                                     else Equal (op_old_start next + os0) (op_new_start this + ns0) p
+                                            :: map sh bef
+                     end =
+                     map sh match bef with
+                            | [] => [Equal (op_old_start next) (op_new_start this) p]
+                            | pv :: bef' => if is_equal_op pv then grow_right pv p :: bef'
+                                            else Equal (op_old_start next) (op_new_start this) p :: bef
+                            end).
+        { destruct bef as [|pv bef']; [reflexivity|]. cbn [map]. rewrite is_equal_op_shift.
+          destruct (is_equal_op pv); [|reflexivity]. cbn [map]. now rewrite grow_right_shift. }
+        rewrite Hb. destruct (op_is_empty next1); injection H as <-; reflexivity.
+      - rewrite op_is_empty_shift. destruct (op_is_empty next); injection H as <-; reflexivity. }
+    destruct (op_tag this) eqn:Et; destruct (op_tag next) eqn:Ep;
+      try (apply KM_same; intros r H; discriminate H); try (apply Hscan; reflexivity).
+    - (* Delete, Delete *)
+      apply KM_same. intros r H. injection H as <-.
+      rewrite op_old_len_shift, grow_right_shift. reflexivity.
+    - (* Delete, Insert *)
+      apply KM_same. intros r H. rewrite repair_pair_shift.
+      destruct repair; [destruct (repair_pair next this) as [a b]|]; injection H as <-; reflexivity.
+    - (* Insert, Delete *)
+      apply KM_same. intros r H. rewrite repair_pair_shift.
+      destruct repair; [destruct (repair_pair next this) as [a b]|]; injection H as <-; reflexivity.
+    - (* Insert, Insert *)
+      apply KM_same. intros r H. injection H as <-.
+      rewrite op_new_len_shift, grow_right_shift. reflexivity.
+  Qed.
+  Lemma run_steps_KM (stA stL stT : zipper -> res step_result) :
+    (forall z, KM shr (stA (shz z)) (stL z) (stT z)) ->
+    forall fuel z, KM shz (run_steps stA fuel (shz z)) (run_steps stL fuel z) (run_steps stT fuel z).
+  Proof.
+    intros Hst fuel. induction fuel as [|fuel IH]; intros z; cbn [run_steps].
+    { intros rT HT. discriminate HT. }
+    apply (KM_bind shr shz); [apply Hst|]. intros r.
+    destruct r as [z'|z']; cbn [shift_sr]; [apply IH|apply (KM_ok shz z')].
+  Qed.
+
+  Lemma shift_up_KM z :
+    KM shz (shift_up cmpA repair (shz z)) (shift_up cmpL repair z) (shift_up cmpT repair z).
+  Proof. unfold shift_up. rewrite inner_fuel_shift. apply run_steps_KM. apply up_step_KM. Qed.
+
+  Lemma shift_down_KM z :
+    KM shz (shift_down cmpA repair (shz z)) (shift_down cmpL repair z) (shift_down cmpT repair z).
+  Proof. unfold shift_down. rewrite inner_fuel_shift. apply run_steps_KM. apply down_step_KM. Qed.
+
+  Lemma rev_shift l : rev (map sh l) = map sh (rev l).
+  Proof. symmetry. apply map_rev. Qed.
+
+  Lemma pass_KM t fuel : forall z,
+    KM (map sh) (pass cmpA repair t fuel (shz z)) (pass cmpL repair t fuel z)
+       (pass cmpT repair t fuel z).
+  Proof.
+    induction fuel as [|fuel IH]; intros z; cbn [pass].
+    { intros rT HT. discriminate HT. }
+    apply (KM_bind shz (map sh)).
+    - destruct z as [[bef this] aft]. cbn [shift_z]. rewrite op_tag_shift.
+      change (map sh bef, sh this, map sh aft) with (shz (bef, this, aft)).
+      destruct (match t with
+                | TDelete => match op_tag this with TDelete => true | _ => false end
+                | TInsert => match op_tag this with TInsert => true | _ => false end
+                | _ => false
+                end).
+      + apply (KM_bind shz shz); [apply shift_up_KM|]. intros zu. apply shift_down_KM.
+      + apply (KM_ok shz (bef, this, aft)).
+    - intros [[bef this] aft]. cbn [shift_z].
+      destruct aft as [|nx aft']; cbn [map].
+      + change (sh this :: map sh bef) with (map sh (this :: bef)). rewrite rev_shift.
+        apply (KM_ok (map sh)).
+      + apply (IH (this :: bef, nx, aft')).
+  Qed.
+
+  Lemma run_pass_KM t l :
+    KM (map sh) (run_pass cmpA repair t (map sh l)) (run_pass cmpL repair t l)
+       (run_pass cmpT repair t l).
+  Proof.
+    destruct l as [|x l']; cbn [map run_pass]; [apply (KM_ok (map sh) [])|].
+    change (sh x :: map sh l') with (map sh (x :: l')). rewrite outer_fuel_shift.
+    apply (pass_KM t _ ([], x, l')).
+  Qed.
+
+  Lemma cleanup_KM l :
+    KM (map sh) (cleanup_diff_ops cmpA repair (map sh l)) (cleanup_diff_ops cmpL repair l)
+       (cleanup_diff_ops cmpT repair l).
+  Proof.
+    unfold cleanup_diff_ops. apply (KM_bind (map sh) (map sh)); [apply run_pass_KM|].
+    intros l1. apply run_pass_KM.
+  Qed.
+
+  (* the form used below *)
+  Theorem cleanup_shift l opsT :
+    cleanup_diff_ops cmpT repair l = Ok opsT ->
+    cleanup_diff_ops cmpA repair (map sh l) = rmap (map sh) (cleanup_diff_ops cmpL repair l).
+  Proof. intros HT. exact (proj1 (cleanup_KM l opsT HT)). Qed.
+End CompactKM.
+
+(* ====================================================================== *)
+(* Replace commutes with shifting (no checked subtraction there)           *)
+(* ====================================================================== *)
+Lemma eqb_shift1 o dO dl k : (o + k =? dO + k + dl) = (o =? dO + dl).
+Proof.
+  destruct (o =? dO + dl) eqn:E.
+  - apply Nat.eqb_eq in E. apply Nat.eqb_eq. lia.
+  - apply Nat.eqb_neq in E. apply Nat.eqb_neq. lia.
+Qed.
+
+Lemma eqb_shift2 inn il n k : (inn + k + il =? n + k) = (inn + il =? n).
+Proof.
+  destruct (inn + il =? n) eqn:E.
+  - apply Nat.eqb_eq in E. apply Nat.eqb_eq. lia.
+  - apply Nat.eqb_neq in E. apply Nat.eqb_neq. lia.
+Qed.
+
+Section ReplaceShift.
+  Variables os0 ns0 : nat.
+
+  Definition shift_del (t : nat * nat * nat) : nat * nat * nat :=
+    let '(o, l, n) := t in (o + os0, l, n + ns0).
+  Definition shift_ine (t : nat * nat * nat) : nat * nat * nat :=
+    let '(o, n, l) := t in (o + os0, n + ns0, l).
+  Definition shift_rs (s : rstate) : rstate :=
+    {| r_del := option_map shift_del (r_del s);
+       r_ins := option_map shift_ine (r_ins s);
+       r_eq := option_map shift_ine (r_eq s) |}.
+
+  Lemma replace_step_shift dbg c s :
+    replace_step dbg (shift_call os0 ns0 c) (shift_rs s) =
+    (map (shift_call os0 ns0) (fst (replace_step dbg c s)),
+     option_map shift_rs (snd (replace_step dbg c s))).
+  Proof.
+    destruct s as [d i e].
+    destruct d as [[[dO dl] dn]|]; destruct i as [[[io inn] il]|]; destruct e as [[[eo en] el]|];
+      destruct c as [o n l|o l n|o n l|o ol n nl|];
+      cbn [replace_step shift_call shift_rs tr_flush_eq tr_flush_del_ins r_del r_ins r_eq
+           option_map shift_del shift_ine fst snd map app];
+      rewrite ?eqb_shift1, ?eqb_shift2; try reflexivity;
+      match goal with |- context [dbg && ?b] => destruct (dbg && b) end; reflexivity.
+  Qed.
+
+  Context {WA WL : Type}.
+  Variable wdA : world WA.
+  Variable wdL : world WL.
+  Variable g : WL -> WA.
+  Hypothesis g_emit : forall c w, emit wdA (shift_call os0 ns0 c) (g w) = rmap g (emit wdL c w).
+
+  Lemma emit_all_shift cs : forall w,
+    emit_all wdA (map (shift_call os0 ns0) cs) (g w) = rmap g (emit_all wdL cs w).
+  Proof.
+    induction cs as [|c cs IH]; intros w; cbn [map emit_all]; [reflexivity|].
+    rewrite g_emit. destruct (emit wdL c w) as [w1| |]; cbn [rmap bind]; try reflexivity.
+    apply IH.
+  Qed.
+
+  Definition grs (x : rstate * WL) : rstate * WA := (shift_rs (fst x), g (snd x)).
+
+  Lemma replace_emit_shift dbg c x :
+    emit (replace_world wdA dbg) (shift_call os0 ns0 c) (grs x) =
+    rmap grs (emit (replace_world wdL dbg) c x).
+  Proof.
+    destruct x as [rs w]. unfold grs. cbn [fst snd emit replace_world].
+    rewrite !replace_emit_step, replace_step_shift. unfold run_trace. cbn [fst snd].
+    rewrite emit_all_shift.
+    destruct (emit_all wdL (fst (replace_step dbg c rs)) w) as [w1| |]; cbn [rmap bind];
+      try reflexivity.
+    destruct (snd (replace_step dbg c rs)); reflexivity.
+  Qed.
+End ReplaceShift.
+
+(* ====================================================================== *)
+(* A successful run is a walk for the totalised oracle                     *)
+(* ====================================================================== *)
+Lemma RawWalk_mono cmp1 cmp2 oe ne i j i0 cs :
+  (forall a b, cmp1 a b = Ok true -> cmp2 a b = Ok true) ->
+  RawWalk cmp1 oe ne i j i0 cs -> RawWalk cmp2 oe ne i j i0 cs.
+Proof.
+  intros Hm H. induction H as [i0|i j i0 l cs Hl Hseg Hw IH|i j i0 l cs Hl Hw IH
+                              |i j i0 o l cs Hl Hlo Hhi Hw IH].
+  - apply RW_nil.
+  - apply RW_eq; [exact Hl| |exact IH]. intros t Ht. apply Hm, Hseg, Ht.
+  - apply RW_del; assumption.
+  - apply RW_ins; assumption.
+Qed.
+
+Lemma run_walk_tot alg dl dbg orc os oe ns ne w1 :
+  os <= oe -> ns <= ne ->
+  diff_deadline alg (plain_world dl) dbg orc os oe ns ne plain0 = Ok w1 ->
+  exists body, plain_calls w1 = body ++ [CFin] /\ RawWalk (tot_cmp (o_on orc)) oe ne os ns os body.
+Proof.
+  intros Ho Hn H.
+  assert (HS : exists cs, plain_calls w1 = plain_calls plain0 ++ cs /\ RawStrong (tot_cmp (o_on orc)) os oe ns ne cs).
+  { destruct alg.
+    - apply (diff_deadline_mono Myers _ dbg orc (tot_cmp (o_on orc))) in H;
+        [|apply tot_cmp_mono|discriminate].
+      cbn [diff_deadline o_on] in H.
+      exact (myers_valid dl _ os oe ns ne plain0 w1 (snake_spec _ _ _) Ho Hn
+               (tot_cmp_total _ _ _ _ _) H).
+    - apply (diff_deadline_mono Patience _ dbg orc (tot_cmp (o_on orc))) in H;
+        [|apply tot_cmp_mono|discriminate].
+      cbn [diff_deadline o_on o_oo o_nn] in H.
+      exact (patience_valid dl dbg _ _ _ os oe ns ne plain0 w1 Ho Hn
+               (tot_cmp_total _ _ _ _ _) H).
+    - cbn [diff_deadline] in H.
+      destruct (lcs_valid _ dl os oe ns ne plain0 w1 Ho Hn H) as (cs & Hcs & body & -> & Hw).
+      exists (body ++ [CFin]). split; [exact Hcs|]. exists body. split; [reflexivity|].
+      eapply RawWalk_mono; [|exact Hw]. intros a b. apply tot_cmp_mono. }
+  destruct HS as (cs & Hcs & body & -> & Hw).
+  exists body. split; [exact Hcs|exact Hw].
+Qed.
+
+Lemma cleanup_tot_ok cmp repair os oe ns ne body :
+  CmpTotal cmp os oe ns ne -> RawWalk cmp oe ne os ns os body ->
+  exists ops', cleanup_diff_ops cmp repair (capture_calls body) = Ok ops'.
+Proof.
+  intros Htot Hw.
+  assert (Hp : exists ops, pipeline_ops cmp repair body = Ok ops).
+  { destruct repair.
+    - destruct (pipeline_repair cmp os oe ns ne body Htot Hw) as (ops & Hp & _). eauto.
+    - exact (pipeline_total_norepair cmp os oe ns ne body Hw Htot). }
+  destruct Hp as [ops Hp]. unfold pipeline_ops in Hp.
+  apply bind_Ok_inv in Hp. destruct Hp as (ops' & Hc & _). eauto.
+Qed.
+
+(* ====================================================================== *)
+(* capture_diff as "run, then finish"                                      *)
+(* ====================================================================== *)
+
+(* what capture_diff does once the algorithm is done: Compact::finish on the
+   buffered calls (cleanup, replay through Replace into Capture) *)
+Definition fin_capture (dl : deadline) (dbg repair : bool) (orc : oracles) (w' : plain)
+  : res (list op * ctr) :=
+  do '(_, (_, w)) <- emit (capture_world dl dbg repair orc) CFin (cgs w');
+  Ok (capture_calls (plain_calls w), p_ctr w).
+
+Lemma diff_deadline_finsim alg dl dbg repair orc os oe ns ne :
+  FinSim (capture_world dl dbg repair orc) (plain_world dl) cgs
+    (diff_deadline alg (capture_world dl dbg repair orc) dbg orc os oe ns ne (cgs plain0))
+    (diff_deadline alg (plain_world dl) dbg orc os oe ns ne plain0).
+Proof.
+  destruct alg; cbn [diff_deadline].
+  - apply myers_diff_finsim; [apply cgs_tick|apply cgs_probe|apply cgs_emit].
+  - apply patience_diff_finsim; [apply cgs_tick|apply cgs_probe|apply cgs_emit].
+  - apply lcs_diff_finsim; [apply cgs_tick|apply cgs_probe|apply cgs_emit].
+Qed.
+
+Lemma capture_diff_split alg dl dbg repair orc os oe ns ne :
+  exists r : res plain,
+    diff_deadline alg (plain_world dl) dbg orc os oe ns ne plain0
+      = bind r (emit (plain_world dl) CFin) /\ capture_diff alg dl dbg repair orc os oe ns ne = bind r (fin_capture dl dbg repair orc).
+Proof.
+  destruct (diff_deadline_finsim alg dl dbg repair orc os oe ns ne) as (r & H2 & H1).
+  exists r. split; [exact H2|]. unfold capture_diff. rewrite <- cgs_plain0, H1.
+  destruct r as [w'| |]; reflexivity.
+Qed.
+
+Lemma fin_inj dl os0 ns0 (rA rL : res plain) :
+  bind rA (emit (plain_world dl) CFin) =
+  rmap (shift_plain os0 ns0) (bind rL (emit (plain_world dl) CFin)) ->
+  rA = rmap (shift_plain os0 ns0) rL.
+Proof.
+  destruct rA as [a| |]; destruct rL as [l| |]; cbn [bind rmap emit plain_world];
+    intros H; try discriminate H; try reflexivity.
+  destruct a as [ca la]. unfold shift_plain in *. cbn [p_ctr p_log map shift_call] in *.
+  injection H as -> ->. reflexivity.
+Qed.
+
+(* ====================================================================== *)
+(* Finish commutes with shifting on the states the algorithms reach        *)
+(* ====================================================================== *)
+Lemma capture_calls_shift os0 ns0 cs :
+  capture_calls (map (shift_call os0 ns0) cs) = map (shift_op os0 ns0) (capture_calls cs).
+Proof.
+  induction cs as [|c cs IH]; [reflexivity|]. cbn [map capture_calls].
+  destruct c; cbn [shift_call call_to_op map]; rewrite IH; reflexivity.
+Qed.
+
+Lemma op_to_call_shift os0 ns0 ops :
+  map op_to_call (map (shift_op os0 ns0) ops) ++ [CFin] =
+  map (shift_call os0 ns0) (map op_to_call ops ++ [CFin]).
+Proof.
+  rewrite map_app. cbn [map shift_call]. f_equal. rewrite !map_map. apply map_ext.
+  intros x. destruct x; reflexivity.
+Qed.
+
+Lemma fin_capture_shift dl dbg repair orcA orcL os0 ns0 w' opsT :
+  (forall i j, o_on orcA (i + os0) (j + ns0) = o_on orcL i j) ->
+  cleanup_diff_ops (tot_cmp (o_on orcL)) repair (capture_calls (plain_calls w')) = Ok opsT ->
+  fin_capture dl dbg repair orcA (shift_plain os0 ns0 w') =
+  (do '(ops, c) <- fin_capture dl dbg repair orcL w';
+   Ok (map (shift_op os0 ns0) ops, c)).
+Proof.
+  intros Hon HT. unfold fin_capture, capture_world, cgs. rewrite !compact_fin_eq.
+  cbn [shift_plain p_log p_ctr].
+  rewrite <- !capture_calls_rev. fold (plain_calls w').
+  rewrite <- map_rev. fold (plain_calls w'). rewrite capture_calls_shift.
+  rewrite (cleanup_shift os0 ns0 (o_on orcA) (o_on orcL) (tot_cmp (o_on orcL)) Hon
+             (tot_cmp_mono _) repair _ opsT HT).
+  destruct (cleanup_diff_ops (o_on orcL) repair (capture_calls (plain_calls w')))
+    as [ops'| |]; cbn [rmap bind]; try reflexivity.
+  rewrite op_to_call_shift.
+  change (rstate0, {| p_ctr := p_ctr w'; p_log := [] |})
+    with (grs os0 ns0 (shift_plain os0 ns0) (rstate0, {| p_ctr := p_ctr w'; p_log := [] |})) at 1.
+  rewrite (emit_all_shift os0 ns0 (replace_world (plain_world dl) dbg)
+             (replace_world (plain_world dl) dbg) (grs os0 ns0 (shift_plain os0 ns0))
+             (replace_emit_shift os0 ns0 (plain_world dl) (plain_world dl) (shift_plain os0 ns0)
+                (shift_plain_emit dl os0 ns0) dbg)).
+  destruct (emit_all (replace_world (plain_world dl) dbg) (map op_to_call ops' ++ [CFin])
+              (rstate0, {| p_ctr := p_ctr w'; p_log := [] |})) as [[rs w]| |];
+    cbn [rmap bind grs fst snd]; try reflexivity.
+  rewrite plain_calls_shift, capture_calls_shift. reflexivity.
+Qed.
+
+(* ====================================================================== *)
+(* C01 for capture_diff                                                    *)
+(* ====================================================================== *)
+Theorem capture_shift_ext alg dl dbg repair orcA orcL os ns a b c d :
+  OrcShift orcA orcL os ns ->
+  a <= b -> c <= d ->
+  capture_diff alg dl dbg repair orcA (a + os) (b + os) (c + ns) (d + ns) =
+  (do '(ops, k) <- capture_diff alg dl dbg repair orcL a b c d;
+   Ok (map (shift_op os ns) ops, k)).
+Proof.
+  intros Horc Hab Hcd.
+  destruct (capture_diff_split alg dl dbg repair orcA (a + os) (b + os) (c + ns) (d + ns))
+    as (rA & HpA & ->).
+  destruct (capture_diff_split alg dl dbg repair orcL a b c d) as (rL & HpL & ->).
+  change plain0 with (shift_plain os ns plain0) in HpA at 1.
+  rewrite (diff_deadline_shift_ext (plain_world dl) (plain_world dl) (shift_plain os ns) os ns
+             (shift_plain_tick dl os ns) (shift_plain_probe dl os ns) (shift_plain_emit dl os ns)
+             alg dbg orcA orcL a b c d plain0 Horc) in HpA.
+  rewrite HpL in HpA. symmetry in HpA. apply fin_inj in HpA. subst rA.
+  destruct rL as [w'| |]; cbn [rmap bind]; try reflexivity.
+  cbn [bind] in HpL.
+  destruct (run_walk_tot alg dl dbg orcL a b c d _ Hab Hcd HpL) as (body & Hbody & Hwalk).
+  cbn [emit plain_world] in Hbody. unfold plain_calls in Hbody. cbn [p_log rev] in Hbody.
+  apply app_inj_tail in Hbody. destruct Hbody as [Hbody _].
+  destruct (cleanup_tot_ok _ repair a b c d body (tot_cmp_total _ _ _ _ _) Hwalk) as [opsT HT].
+  apply (fin_capture_shift dl dbg repair orcA orcL os ns w' opsT (proj1 Horc)).
+  unfold plain_calls. rewrite Hbody. exact HT.
+Qed.
+
+Theorem capture_shift_gen alg dl dbg repair orc os ns a b c d :
+  a <= b -> c <= d ->
+  capture_diff alg dl dbg repair orc (a + os) (b + os) (c + ns) (d + ns) =
+  (do '(ops, k) <- capture_diff alg dl dbg repair (shift_orc orc os ns) a b c d;
+   Ok (map (shift_op os ns) ops, k)).
+Proof. apply capture_shift_ext, OrcShift_shift_orc. Qed.
+
+Theorem capture_shift alg dl dbg repair orc os oe ns ne :
+  os <= oe -> ns <= ne ->
+  capture_diff alg dl dbg repair orc os oe ns ne =
+  (do '(ops, c) <- capture_diff alg dl dbg repair (shift_orc orc os ns) 0 (oe - os) 0 (ne - ns);
+   Ok (map (shift_op os ns) ops, c)).
+Proof.
+  intros Ho Hn. rewrite <- capture_shift_gen by lia. cbn [Nat.add].
+  now replace (oe - os + os) with oe by lia; replace (ne - ns + ns) with ne by lia.
+Qed.
+
+(* ====================================================================== *)
+(* The oracles of extracted slices                                         *)
+(* ====================================================================== *)
+
+(* utils::OffsetLookup (how the library itself re-bases a slice): items xs / ys
+   looked up at absolute positions os.. / ns.. versus the bare slices *)
+Lemma OrcShift_offset {A} (eqb : A -> A -> bool) (xs ys : list A) os ns :
+  OrcShift (oracles_of_items eqb (offset_lookup os xs) (offset_lookup ns ys))
+           (oracles_of_items eqb (slice_lookup xs) (slice_lookup ys)) os ns.
+Proof.
+  assert (H : forall (l : list A) k i, offset_lookup k l (i + k) = slice_lookup l i).
+  { intros l k i. unfold offset_lookup, slice_lookup.
+    replace (i + k <? k) with false by (symmetry; apply Nat.ltb_ge; lia).
+    now replace (i + k - k) with i by lia. }
+  repeat split; intros i j; cbn [oracles_of_items o_on o_oo o_nn]; unfold cmp_of, cmp_same;
+    rewrite !H; reflexivity.
+Qed.
+
+Lemma nth_error_skipn_add {A} (l : list A) : forall k i,
+  nth_error (skipn k l) i = nth_error l (i + k).
+Proof.
+  induction l as [|x l IH]; intros k i.
+  - rewrite skipn_nil. transitivity (@None A); [now destruct i|now destruct (i + k)].
+  - destruct k as [|k]; cbn [skipn].
+    + now rewrite Nat.add_0_r.
+    + rewrite IH. replace (i + S k) with (S (i + k)) by lia. reflexivity.
+Qed.
+
+(* the caller's whole sequences versus their tails from the range starts *)
+Lemma OrcShift_skipn {A} (eqb : A -> A -> bool) (old new : list A) os ns :
+  OrcShift (oracles_of_items eqb (slice_lookup old) (slice_lookup new))
+           (oracles_of_items eqb (slice_lookup (skipn os old)) (slice_lookup (skipn ns new)))
+           os ns.
+Proof.
+  repeat split; intros i j; cbn [oracles_of_items o_on o_oo o_nn]; unfold cmp_of, cmp_same,
+    slice_lookup; rewrite !nth_error_skipn_add; reflexivity.
+Qed.
+
+(* diffing old[os..oe) against new[ns..ne) = diffing the tails old[os..],
+   new[ns..] on 0..oe-os / 0..ne-ns, indices shifted back *)
+Corollary raw_shift_slices {A} (eqb : A -> A -> bool) (old new : list A) alg dl dbg os oe ns ne :
+  os <= oe -> ns <= ne ->
+  raw_trace alg dl dbg (oracles_of_items eqb (slice_lookup old) (slice_lookup new)) os oe ns ne =
+  (do '(calls, c) <-
+      raw_trace alg dl dbg
+        (oracles_of_items eqb (slice_lookup (skipn os old)) (slice_lookup (skipn ns new)))
+        0 (oe - os) 0 (ne - ns);
+   Ok (map (shift_call os ns) calls, c)).
+Proof.
+  intros Ho Hn. rewrite <- (raw_shift_ext alg dl dbg _ _ os ns 0 (oe - os) 0 (ne - ns)
+                              (OrcShift_skipn eqb old new os ns)).
+  cbn [Nat.add].
+  now replace (oe - os + os) with oe by lia; replace (ne - ns + ns) with ne by lia.
+Qed.
+
+Corollary capture_shift_slices {A} (eqb : A -> A -> bool) (old new : list A)
+    alg dl dbg repair os oe ns ne :
+  os <= oe -> ns <= ne ->
+  capture_diff alg dl dbg repair
+    (oracles_of_items eqb (slice_lookup old) (slice_lookup new)) os oe ns ne =
+  (do '(ops, c) <-
+      capture_diff alg dl dbg repair
+        (oracles_of_items eqb (slice_lookup (skipn os old)) (slice_lookup (skipn ns new)))
+        0 (oe - os) 0 (ne - ns);
+   Ok (map (shift_op os ns) ops, c)).
+Proof.
+  intros Ho Hn. rewrite <- (capture_shift_ext alg dl dbg repair _ _ os ns 0 (oe - os) 0 (ne - ns)
+                              (OrcShift_skipn eqb old new os ns)) by lia.
+  cbn [Nat.add].
+  now replace (oe - os + os) with oe by lia; replace (ne - ns + ns) with ne by lia.
+Qed.
+
+Print Assumptions raw_shift_ext.
+Print Assumptions capture_shift_ext.
+Print Assumptions raw_shift_slices.
+Print Assumptions capture_shift_slices.
+Print Assumptions raw_shift_gen.
+Print Assumptions raw_shift.
+Print Assumptions capture_shift_gen.
+Print Assumptions capture_shift.
